@@ -233,6 +233,37 @@ def run_plugin_missing(sc):
         return dict(first=first, second=second, records=nrec)
 
 
+def run_warm_wrong_side(sc):
+    """A valid run, then continuations from its output whose stop lies on the wrong side of the restart time."""
+    use_repo()
+    from harness.props import c08
+    with lab.scratch() as d:
+        conf = scen.write(sc, d)
+        st = lab.run(conf, d)
+        files = scen.read_outputs(d, sc)
+        if st != "ok" or not files:
+            return dict(base=st, tries=[])
+        fk = files[0]
+        at, _ = c08.abs_times(fk)
+        sg = -1 if sc["rev"] else 1
+        tries = []
+        for delta in (3 * scen.DT, scen.DT, scen.DT // 2, 1):
+            wd = d / f"w{delta}"
+            wd.mkdir()
+            conf2 = scen.write(sc, wd, out_name="cont.nc", warm=dict(filename=str(d / fk["name"]),
+                               variables=(["age"] if sc["age"] else []) + (["release_time"] if sc["pvars"] else [])))
+            conf2["time"]["stop"] = lab.tstr(at[-1] - sg * delta)
+            st2 = lab.run(conf2, wd)
+            nrec = 0
+            for f in glob.glob(str(wd / "cont*.nc")):
+                try:
+                    nrec += len(lab.read_out(f)["time"])
+                except Exception:  # noqa: BLE001
+                    pass
+            tries.append(dict(stop_before_restart_by=delta, status=st2, records=nrec))
+        return dict(base="ok", restart_time=at[-1], tries=tries)
+
+
 def run(ctx: Ctx):
     use_repo()
     bs = bases(ctx.seed + 1)
@@ -277,3 +308,18 @@ def run(ctx: Ctx):
             ctx.violation("failing-input", "plugin-missing", case, dict(second_run=g["second"], records=g["records"],
                           note="the IBM module file named in the configuration does not exist any more; the run must stop at start-up and write no record",
                           theorem="Ladim.C20.refuses_missing_files_sections"), tags=dict(first="not-refused", fault="plugin_file_removed"))
+
+    # ---- a continuation whose stop lies on the wrong side of the restart time, by several steps, one step, half a step, a second
+    wcases = [scen.gen(ctx.seed * 1000 + 2900 + k, rev=bool(k % 2), layout="sparse", numrec=[0, 2][k % 2], period=1, nsteps=5, kills=False, continuous=bool(k % 3 == 1),
+                       land=False, subgrid="none") for k in range(8 if ctx.thorough else 3)]
+    for sc, g in zip(wcases, pmap(run_warm_wrong_side, wcases)):
+        case = dict(fault="continuation_with_stop_on_the_wrong_side", base=dict(rev=sc["rev"], continuous=sc["continuous"], seed=sc["seed"]))
+        ctx.case("warm-wrong-side", [sc["seed"]], sample=dict(case, result=g), nontrivial=True)
+        if g["base"] != "ok":
+            ctx.violation("tie-broken", "warm-wrong-side", case, dict(base_run=g["base"])); continue
+        for t in g["tries"]:
+            if t["status"] == "ok" or t["records"] > 0:
+                ctx.violation("failing-input", "warm-wrong-side", dict(case, stop_before_restart_by_seconds=t["stop_before_restart_by"]),
+                              dict(status=t["status"], records=t["records"], note="the stop time lies on the wrong side of the (restart) start time: the run must stop with an error",
+                                   theorem="Ladim.C20.refuses_wrong_side / Ladim.Simulation.refuses_wrong_side"), tags=dict(first="not-refused", fault="stop_wrong_side_warm"))
+                break
